@@ -237,6 +237,21 @@ class SimFS:
         del self.fds[fd]
         self.inodes[of.ino].nopen -= 1
 
+    def settle(self):
+        """The process is gone and time has passed: descriptors are closed by the kernel and
+        everything the kernel knew has reached the disk.  The result is a durable pre-state
+        for a later run on the same file system."""
+        for fd in list(self.fds):
+            self.inodes[self.fds[fd].ino].nopen -= 1
+            del self.fds[fd]
+        for n in self.inodes.values():
+            n.synced = bytes(n.data)
+            n.pending = []
+        self.journal = []
+        self.durable_meta = 0
+        self.initial_dir = dict(self.dir)
+        self.full = False
+
     # -- observation -----------------------------------------------------------------------
     def read_path(self, path):
         i = self.lookup(path)
